@@ -136,6 +136,7 @@ Proof.
     congruence.
   - apply hres_eqb_eq in E. congruence.
   - apply andb_true_iff in E as [E1 E2]. apply N.eqb_eq in E1. apply (list_eqb_eq kv_eqb kv_eqb_eq) in E2. congruence.
+  - apply res_eqb_true in E. congruence.
   - reflexivity.
 Qed.
 
@@ -190,13 +191,13 @@ Fixpoint v15 (e : engine) (s : mstate) (ldr : option cid) (xs : list (act * aobs
       let s' := fst (m_step e s a) in
       match a with
       | AElect c _ _ _ _ _ =>
-          m_p s c = proc0 /\
+          p_lead (m_p s c) = mkL 0 0 /\      (* a fresh Backend: a process is elected at most once *)
           match snd (m_step e s a) with
           | OElect (EAcquired v) _ _ d _ => (e <> EBadger -> dmax d <= v) /\ v15 e s' (Some c) tl
           | _ => False                     (* the scripts the driver writes only contain winning elections *)
           end
       | AOp c _ | AList c => ldr = Some c /\ v15 e s' ldr tl
-      | ARestart => v15 e s' ldr tl
+      | AGet _ _ | ARestart => v15 e s' ldr tl
       end
   end.
 Definition c15_valid (c : c15_case) : Prop := v15 (c_engine c) mstate0 None (c_script c).
@@ -222,14 +223,15 @@ Lemma step_keeps os a o os' :
   o15_step os (a, o) = Some os' ->
   os_leader os' = os_leader os /\ os_base os' = os_base os /\ os_dump os' = os_dump os.
 Proof.
-  intros Ne. destruct a as [c h bc bu t1 t2|c op|c|]; [exfalso; eapply Ne; reflexivity| | |]; cbn [o15_step].
-  - destruct o as [| r | |]; try discriminate. destruct (os_leader os) as [l|] eqn:L; [|intros H; injection H as <-; auto].
+  intros Ne. destruct a as [c h bc bu t1 t2|c op|c|c t|]; [exfalso; eapply Ne; reflexivity| | | |]; cbn [o15_step].
+  - destruct o as [| r | | |]; try discriminate. destruct (os_leader os) as [l|] eqn:L; [|intros H; injection H as <-; auto].
     destruct (c =? l); [|intros H; injection H as <-; auto].
     match goal with |- (if ?b then _ else _) = _ -> _ => destruct b end; [|discriminate].
     intros H; injection H as <-. cbn. auto.
-  - destruct o as [| |hdr kvs|]; try discriminate. destruct (os_leader os) as [l|] eqn:L; [|intros H; injection H as <-; auto].
+  - destruct o as [| |hdr kvs| |]; try discriminate. destruct (os_leader os) as [l|] eqn:L; [|intros H; injection H as <-; auto].
     destruct ((c =? l) && os_fresh os); [|intros H; injection H as <-; auto].
     destruct (list_eqb kv_eqb kvs (list_latest (os_dump os))); [|discriminate]. intros H; injection H as <-; auto.
+  - destruct o; try discriminate. intros H; injection H as <-; auto.
   - destruct o; try discriminate. intros H; injection H as <-; auto.
 Qed.
 
@@ -241,7 +243,7 @@ Proof.
   cbn [c15_run] in C. cbn [v15] in V. destruct (m_step e s a) as [s' o'] eqn:M. cbn [fst snd] in V.
   apply andb_true_iff in C as [Eo C]. apply aobs_eqb_eq in Eo. subst o.
   destruct Jn as [W Jl].
-  destruct a as [c h bc bu t1 t2|c op|c|].
+  destruct a as [c h bc bu t1 t2|c op|c|c t|].
   - (* election: always a winning one in a valid script *)
     cbn [m_step] in M. destruct (elect e (m_w s) (m_p s c) h bc bu t1 t2) as [[[[w' p'] r] g] wr] eqn:El.
     injection M as <- <-. destruct V as [Fresh V].
@@ -268,8 +270,9 @@ Proof.
     destruct Jd as [[Eb Hb]|[Hle [G [Hbn [Hun Hfr]]]]].
     + (* hand-over went wrong: whatever the oracle says is classified as the finding *)
       cbn [o15_run]. destruct (o15_step os (AOp c op, OOp (d_res out))) as [os'|] eqn:St.
-      * destruct (step_keeps _ _ _ _ ltac:(discriminate) St) as [K1 [K2 K3]].
-        apply (IH _ os'); [|rewrite K1, Ld; exact V|exact C].
+      * assert (Ne : forall c0 h bc bu t1 t2, AOp c op <> AElect c0 h bc bu t1 t2) by (intros; discriminate).
+        destruct (step_keeps _ _ _ _ Ne St) as [K1 [K2 K3]].
+        refine (IH _ os' _ _ C); [|rewrite K1; exact V].
         split; [exact W'|]. rewrite K1, Ld. exists (n + 1). split; [exact P'|]. left. rewrite K2, K3. auto.
       * right. f_equal. apply code_of_bad; assumption.
     + (* hand-over was ahead: the oracle accepts the response *)
@@ -290,8 +293,8 @@ Proof.
         - rewrite (guarded_update_ok _ _ _ _ _ G Gp Ki). reflexivity.
         - rewrite (guarded_delete_ok _ _ _ _ G Gp Ki). reflexivity. }
       rewrite Ha, Hb. cbn [andb].
-      apply (IH _ _); [|cbn [os_leader]; rewrite Ld; exact V|exact C].
-      split; [exact W'|]. cbn [os_leader os_base os_dump os_touched os_fresh]. rewrite Ld.
+      refine (IH _ _ _ _ C); [|cbn [os_leader]; rewrite <- Ld; exact V].
+      split; [exact W'|]. cbn [os_leader os_base os_dump os_touched os_fresh]. try rewrite Ld.
       exists (n + 1). split; [exact P'|]. right. split; [exact Hle|].
       cbn [m_w]. rewrite bump_data. cbn [w_data]. split; [apply good_step; exact G|]. split; [lia|]. split; [|discriminate].
       intros k Hk. cbn [existsb] in Hk. apply orb_false_iff in Hk as [Hk1 Hk2].
@@ -301,21 +304,28 @@ Proof.
     cbn [m_step] in M. rewrite Pn in M. cbn [committed] in M. injection M as <- <-.
     destruct Jd as [[Eb Hb]|[Hle [G [Hbn [Hun Hfr]]]]].
     + cbn [o15_run]. destruct (o15_step os (AList c, OList n (list_at (w_data (m_w s)) n))) as [os'|] eqn:St.
-      * destruct (step_keeps _ _ _ _ ltac:(discriminate) St) as [K1 [K2 K3]].
-        apply (IH s os'); [|rewrite K1, Ld; exact V|exact C].
+      * assert (Ne : forall c0 h bc bu t1 t2, AList c <> AElect c0 h bc bu t1 t2) by (intros; discriminate).
+        destruct (step_keeps _ _ _ _ Ne St) as [K1 [K2 K3]].
+        apply (IH s os'); [|rewrite K1; exact V|exact C].
         split; [exact W|]. rewrite K1, Ld. exists n. split; [exact Pn|]. left. rewrite K2, K3. auto.
       * right. f_equal. apply code_of_bad; assumption.
     + cbn [o15_run o15_step]. rewrite Ld, N.eqb_refl. cbn [andb].
       destruct (os_fresh os) eqn:Fr.
       * destruct (Hfr eq_refl) as [Ed En]. rewrite Ed, En, (list_at_latest _ _ Hle).
         rewrite (list_eqb_refl kv_eqb kv_eqb_refl).
-        apply (IH s os); [|rewrite Ld; exact V|exact C].
+        apply (IH s os); [|exact V|exact C].
         split; [exact W|]. rewrite Ld. exists n. split; [exact Pn|]. right. rewrite Fr. auto.
-      * apply (IH s os); [|rewrite Ld; exact V|exact C].
+      * apply (IH s os); [|exact V|exact C].
         split; [exact W|]. rewrite Ld. exists n. split; [exact Pn|]. right. rewrite Fr. auto.
+  - (* a standby polls the lock: data and allocators untouched *)
+    cbn [m_step] in M. injection M as <- <-. cbn [o15_run o15_step].
+    refine (IH _ os _ _ C); [|exact V].
+    split; [exact W|]. cbn [m_w m_p].
+    destruct (os_leader os) as [l|]; [|exact I]. destruct Jl as [n [Pn Jd]]. exists n. split; [|exact Jd].
+    unfold upd. destruct (l =? c) eqn:E; [apply N.eqb_eq in E; subst l; exact Pn|exact Pn].
   - (* restart *)
     cbn [m_step] in M. injection M as <- <-. cbn [o15_run o15_step].
-    apply (IH _ os); [|exact V|exact C].
+    refine (IH _ os _ _ C); [|exact V].
     assert (Dd : w_data (restart e (m_w s)) = w_data (m_w s)) by (destruct e; reflexivity).
     split; [cbn [m_w]; rewrite Dd; exact W|]. cbn [m_w m_p]. rewrite Dd. exact Jl.
 Qed.
